@@ -3,21 +3,28 @@ import Gallia.Gen.C15Exit
 /-
   C15 — Every run leaves a consistent exit code, META.json, log file and database record.
 
-  Property theorems only; helper lemmas are in `Proofs/Lemmas/Lifecycle.lean`.
-  All theorems quantify over every configuration `c : Cfg` (command kind x lock x artifacts x database x hooks) and
-  every script `s : Script` (hook scripts ok / failing; database opens / cannot be opened; at each of setup, main, teardown-before-super,
-  teardown-after-super: return, `sys.exit(n)` for every n, `sys.exit(non-int)`, connection / UDS / other error,
-  KeyboardInterrupt, cancellation of the main task) - no bounds.
+  Property theorems only; helper lemmas are in `Proofs/Lemmas/LifecycleSteps.lean` and `Proofs/Lemmas/Lifecycle.lean`.
+  All theorems quantify over every configuration `c : Cfg` (command kind x lock x artifacts x database x hooks x power
+  supply x dumpcap x tester-present task x properties) and every script `s : Script` (hook scripts ok / failing; database
+  opens / cannot be opened; at each of the command's own points setup, main, teardown-before-super, teardown-after-super
+  and at each of the framework's steps - power supply connect, dumpcap (started / not started / missing / not coming
+  up), transport connect, `ecu.connect`, tester-present start, properties, properties in teardown, tester-present stop,
+  `ecu.transport.close()`, `transport.close()`, `dumpcap.stop()`: return, `sys.exit(n)` for every n, `sys.exit(non-int)`,
+  connection / UDS / other error, KeyboardInterrupt, cancellation of the main task) - no bounds.
+  Theorems whose name ends in `_world` (and the section on the prologue) also quantify over every `w : World`: lock free /
+  held by somebody else / not lockable, artifacts base writable or not, any set of earlier run directories, any clock
+  reading for the new directory name.  `entryPoint c s` is the run in a benign world (`entryPointW {} {} c s`);
+  `started_run_world_independent` carries every statement about it to every world in which the run starts.
 -/
 namespace Gallia.C15
 open Gallia.Lifecycle Gallia.Lifecycle.Spec
 
 /-! ## (T) the model's tables are the ones in the source -/
 
-/-- exit code constants: `exitcodes.OK/SOFTWARE/IOERR`, `128 + signal.SIGINT` -/
+/-- exit code constants: `exitcodes.OK/SOFTWARE/IOERR/OSFILE`, `128 + signal.SIGINT` -/
 theorem exit_constants_agree :
-    (Gen.C15Exit.OK, Gen.C15Exit.SOFTWARE, Gen.C15Exit.IOERR, Gen.C15Exit.SIGINT_EXIT) =
-      (OK, SOFTWARE, IOERR, SIGINT_EXIT) := by decide
+    (Gen.C15Exit.OK, Gen.C15Exit.SOFTWARE, Gen.C15Exit.IOERR, Gen.C15Exit.OSFILE, Gen.C15Exit.SIGINT_EXIT) =
+      (OK, SOFTWARE, IOERR, OSFILE, SIGINT_EXIT) := by decide
 
 /-- the `except` clauses of `entry_point` (AST): classes and bodies, in source order -/
 theorem ladder_agrees : Gen.C15Exit.ladder = ladderNames {} := by decide
@@ -28,11 +35,27 @@ theorem first_match_agrees :
       [ExcType.keyboardInterrupt, .systemExit, .exception, .cancelledError].map fun t =>
         (t.genName, (ladder {}).findIdx? fun p => decide (t ∈ p.1)) := by decide
 
-/-- statement order of `entry_point` (AST) is the order in which `entryPointQ` performs its steps -/
+/-- statement order of `entry_point` (AST) is the order in which `entryPointW` performs its steps:
+    lock (OSError -> `return exitcodes.OSFILE`), artifacts directory, log handler, pre-hook, `try:` database, run ... -/
 theorem steps_agree : Gen.C15Exit.steps = modelSteps := by decide
 
 /-- `AsyncScript.run` is `setup(); try: main() finally: teardown()` -/
 theorem run_shape_agrees : Gen.C15Exit.runShape = modelRunShape := by decide
+
+/-- statement order of `Scanner.setup`, `UDSScanner.setup`, `UDSScanner.teardown`, `Scanner.teardown` (AST) is the
+    order of the step lists `scannerSetup`, `udsSetup`, `udsTeardown`, `scannerTeardown` with every switch on -/
+theorem setup_teardown_order_agrees :
+    (Gen.C15Exit.scannerSetupSrc, Gen.C15Exit.udsSetupSrc, Gen.C15Exit.udsTeardownSrc, Gen.C15Exit.scannerTeardownSrc) =
+      (scannerSetupSrc, udsSetupSrc, udsTeardownSrc, scannerTeardownSrc) := by decide
+
+/-- ... and every statement is guarded by the `if` the step lists assume -/
+theorem guards_agree : Gen.C15Exit.guards = modelGuards := by decide
+
+/-- `prepare_artifacts_dir` (name from the clock, `mkdir`, ENV, LATEST -> name-wise last directory) and `_aquire_flock`
+    (a held lock is waited for) are what `artPhase` / `lockPhase` model -/
+theorem prologue_agrees :
+    (Gen.C15Exit.artifactsSteps, Gen.C15Exit.lockWaits, Gen.C15Exit.latestIsLastByName) =
+      (modelArtifactsSteps, true, true) := by decide
 
 /-- `CATCHED_EXCEPTIONS` of the three command base classes over the partition connection / UDS / other -/
 theorem catched_agrees :
@@ -42,18 +65,20 @@ theorem catched_agrees :
 
 /-- the repaired behaviours are still repaired in the source: `Scanner.teardown` does not disconnect the database,
     `run_hook` reads no name that is unbound when the script fails, `DBHandler.connect` cleans up after a failed open
-    (that `_db_insert_run_meta()` sits inside the `try:` is part of `steps_agree`) -/
+    (that `_db_insert_run_meta()` sits inside the `try:` is part of `steps_agree`); and `mkdir` has no `exist_ok` -/
 theorem quirks_agree :
     (Gen.C15Exit.scannerTeardownDisconnectsDb, Gen.C15Exit.hookUnboundNames.isEmpty,
-        Gen.C15Exit.dbConnectClosesOnFailure) =
-      (({} : Quirks).scannerDisconnect, !({} : Quirks).hookUnbound, !({} : Quirks).dbOpenUnguarded) := by decide
+        Gen.C15Exit.dbConnectClosesOnFailure, Gen.C15Exit.mkdirExistOk) =
+      (({} : Quirks).scannerDisconnect, !({} : Quirks).hookUnbound, !({} : Quirks).dbOpenUnguarded,
+        ({} : Quirks).mkdirExistOk) := by decide
 
 /-! ## the headline theorems -/
 
 /-- `entry_point()` always returns (nothing escapes), and the code follows the documented mapping:
     0 / n / 70 for a non-int `sys.exit` / 74 for an error the command declares as expected, else 70 / 130 for
     KeyboardInterrupt and for cancellation — decided by the exception that Python's try/finally rules let out of
-    `setup(); try: main() finally: teardown()` (a database that cannot be opened counts as an unexpected error) -/
+    `setup(); try: main() finally: teardown()`, the framework's own steps included (a database that cannot be opened
+    counts as an unexpected error) -/
 theorem exit_mapping (c : Cfg) (s : Script) :
     (entryPoint c s).exit = .ret (match ended c s with
       | none => 0
@@ -93,7 +118,8 @@ theorem log_closed (c : Cfg) (s : Script) : (entryPoint c s).logClosed = true :=
 /-- the lock is released in every run ... -/
 theorem lock_released (c : Cfg) (s : Script) : (entryPoint c s).lockReleased = true := (entryPoint_fields c s).2.1
 
-/-- ... and held at every observable action before that (pre-hook, connect, setup, main, teardown, close, post-hook) -/
+/-- ... and held at every observable action before that (pre-hook, every step of setup, main, every step of teardown,
+    post-hook) -/
 theorem lock_held_throughout (c : Cfg) (s : Script) :
     ∀ o ∈ (entryPoint c s).trace, o.lockHeld = c.lock := by
   rw [entryPoint_trace]
@@ -118,10 +144,7 @@ theorem meta_written_after_teardown (c : Cfg) (s : Script) :
     · simp at ho
     simp only [List.mem_map] at ho
     obtain ⟨a, ha, rfl⟩ := ho
-    have : a ≠ .post := by
-      intro h; subst h
-      cases hk : c.kind <;> cases h1 : s.setup <;> cases h2 : s.tdPre <;>
-        simp [bodyActs, Kind.isScanner, Kind.closes, List.replicate, hk, h1, h2] at ha
+    have : a ≠ .post := fun h => (bodyActs_no_hook c s).1 (h ▸ ha)
     cases a <;> simp_all
   · cases hh : c.hooks <;> simp [hh] at ho; subst ho; simp
 
@@ -132,8 +155,8 @@ theorem times_ordered (c : Cfg) (s : Script) :
     (∀ m a b x, (entryPoint c s).metaFile = some m → (entryPoint c s).dbRow = .done a b x →
         m.start < a ∧ a < m.stop ∧ m.stop < b) := by
   obtain ⟨-, -, -, -, -, -, hm, hd, -⟩ := entryPoint_fields c s
-  have h0 := startTick_pos c s
-  have h1 := start_lt_stop c s
+  have h0 := startTick_pos {} c s
+  have h1 := start_lt_stop {} c s
   refine ⟨?_, ?_, ?_⟩
   · intro m h; rw [hm] at h; cases ha : c.art <;> simp [ha] at h; subst h; simp; omega
   · intro a b x h; rw [hd] at h; cases hb : c.db <;> cases hf : s.dbFails <;> simp [hb, hf] at h; omega
@@ -158,46 +181,424 @@ theorem post_hook_env (c : Cfg) (s : Script) :
     cases ha : c.art <;> simp [ha] at hm'; subst hm'; rfl
   · intro h; exact ⟨by simpa [h] using hp, by simpa [h] using he⟩
 
+/-- the run with both hook scripts well-behaved -/
+def calm (s : Script) : Script := { s with preFails := false, postFails := false }
+
 /-- a failing hook is reported and changes nothing else: the outcome with any hook failures is the outcome with
     well-behaved hooks, except that exactly the failing hooks that ran are reported -/
 theorem hook_failure_inert (c : Cfg) (s : Script) :
     entryPoint c s =
       { entryPoint c { s with preFails := false, postFails := false } with reports := failing c s } := by
+  have hcode : code c (calm s) = code c s := rfl
+  have hacts : bodyActs c (calm s) = bodyActs c s := rfl
+  have hticks : startTick {} c (calm s) = startTick {} c s ∧ stopTick {} c (calm s) = stopTick {} c s := by
+    have d1 : (calm s).dbFails = s.dbFails := rfl
+    have d2 : (calm s).preFails = false := rfl
+    unfold startTick stopTick tryBody dbInsert hookPre runHook
+    rw [d1, d2]
+    cases c.hooks <;> cases c.db <;> cases s.dbFails <;> cases s.preFails <;>
+      simp [St.obs, St.step, runBody_tick_eq, hacts]
+  obtain ⟨a1, a2, a3, a4, a5, a6, a7, a8, a9, a10, a11, a12, a13⟩ := started_fields {} c s
+  obtain ⟨b1, b2, b3, b4, b5, b6, b7, b8, b9, b10, b11, b12, b13⟩ := started_fields {} c (calm s)
+  obtain ⟨r1, r2, r3⟩ := started_resources {} c s
+  obtain ⟨q1, q2, q3⟩ := started_resources {} c (calm s)
+  have t1 := started_trace {} c s
+  have t2 := started_trace {} c (calm s)
+  rw [hcode] at b1 b7 b8 b9 b12
+  rw [hticks.1, hticks.2] at b8
+  rw [hticks.2] at b7 b9
+  rw [hacts] at t2
+  change entryPoint c s = { entryPoint c (calm s) with reports := failing c s }
   rw [entryPoint_eq, entryPoint_eq]
-  obtain ⟨pf, df, e1, e2, e3, e4, qf⟩ := s
-  cases hl : c.lock <;> cases hh : c.hooks <;> cases ha : c.art <;> cases hd : c.db <;> cases df <;>
-    cases pf <;> cases qf <;>
-  simp [St.final, endState, finishedState, unlock, postPhase, finish, tryBody, dbInsert, prePhase, runHook, St.obs,
-    St.step, failing, runBody_tick_eq, runBody_transportOpen, runBody_trace, bodyActs, code, ended, raised,
-    hl, hh, ha, hd]
+  apply Final.ext_fields
+  · exact a1.trans b1.symm
+  · exact a7.trans b7.symm
+  · exact a8.trans b8.symm
+  · exact a4.trans b4.symm
+  · exact a3.trans b3.symm
+  · exact a2.trans b2.symm
+  · exact a5.trans b5.symm
+  · exact a9.trans b9.symm
+  · exact a6
+  · exact r1.trans q1.symm
+  · exact t1.trans t2.symm
+  · exact r2.trans q2.symm
+  · exact r3.trans q3.symm
+  · exact a10.trans b10.symm
+  · exact a11.trans b11.symm
+  · exact a12.trans b12.symm
+  · exact a13.trans b13.symm
 
-/-- the executable specification (`Spec.violations`, the one the harness evaluates on the real runs) finds nothing
-    wrong with any run of the model -/
-theorem spec_holds (c : Cfg) (s : Script) : violations c s (entryPoint c s) = [] := by
-  obtain ⟨hx, hl, hg, hc, hp, hr, hm, hd, he⟩ := entryPoint_fields c s
-  have h1 := start_lt_stop c s
-  have ht : ((entryPoint c s).trace.all fun o => o.lockHeld == c.lock) = true := by
-    rw [List.all_eq_true]; intro o ho; simpa using lock_held_throughout c s o ho
-  unfold violations
-  simp only [hx, hl, hg, hc, hp, hr, hm, hd, he, ht]
-  cases c.art <;> cases c.db <;> cases s.dbFails <;> cases c.hooks <;> simp [chk] <;> omega
+/-! ## faults inside the framework's own setup / teardown steps -/
 
-/-- the transport of a scanner is closed again unless `setup()` or the command's own teardown code (before
-    `super().teardown()`) raises - in those two cases the code leaves it open -/
+/-- a step of `setup()` that raises - power supply, dumpcap, refused transport connection, `ecu.connect`, tester present,
+    properties or the command's own code - ends the run with the code of *that* exception; neither `main()` nor any
+    step of `teardown()` runs (no half-initialised teardown); META.json, the run_meta row and the post-hook carry the
+    same code, log and lock are released as in every run (`meta_agrees`, `db_agrees`, `log_closed`, `lock_released`) -/
+theorem setup_fault_skips_teardown (c : Cfg) (s : Script) (e : Exc)
+    (hdb : (c.db && s.dbFails) = false) (h : setupFault c s = some e) :
+    (entryPoint c s).exit = .ret (exitOf c.kind (some e)) ∧
+    (∀ o ∈ (entryPoint c s).trace, o.act ≠ .main) ∧
+    (∀ p ∈ teardownSteps {} c s, ∀ o ∈ (entryPoint c s).trace, o.act ≠ p.act) := by
+  have hs : ∀ p ∈ setupSteps c s, p.act ≠ .main ∧ ∀ t ∈ teardownSteps {} c s, p.act ≠ t.act := by
+    have h : (setupSteps c s).all (fun p => p.act != .main && (teardownSteps {} c s).all fun t => p.act != t.act) = true := by
+      unfold setupSteps scannerSetup udsSetup teardownSteps scannerTeardown udsTeardown
+      cases c.kind <;> cases c.power <;> cases (c.art && c.dumpcap) <;> cases c.tp <;> cases c.props <;>
+        cases s.dumpcap <;> cases dumpcapActive c s <;> simp [Kind.isScanner, Kind.isUds, dumpcapStep]
+    intro p hp
+    have := List.all_eq_true.mp h p hp
+    simp only [Bool.and_eq_true, bne_iff_ne, ne_eq, List.all_eq_true] at this
+    exact this
+  have hacts : bodyActs c s = (performed (setupSteps c s)).map (·.act) := by
+    unfold bodyActs bodySteps; simp [h]
+  have hpost : ∀ t ∈ teardownSteps {} c s, t.act ≠ .post ∧ t.act ≠ .pre := by
+    have h : (teardownSteps {} c s).all (fun p => p.act != .post && p.act != .pre) = true := by
+      unfold teardownSteps scannerTeardown udsTeardown
+      cases c.kind <;> cases dumpcapActive c s <;> cases c.tp <;> cases c.props <;>
+        simp [Kind.isScanner, Kind.isUds]
+    intro p hp
+    have := List.all_eq_true.mp h p hp
+    simpa using this
+  refine ⟨?_, ?_, ?_⟩
+  · rw [(entryPoint_fields c s).1]; simp [code, ended, hdb, raised, h]
+  · intro o ho hm
+    rw [entryPoint_trace, hdb, hacts] at ho
+    simp only [Bool.false_eq_true, ↓reduceIte, List.mem_append, List.map_map, List.mem_map, Function.comp] at ho
+    rcases ho with (ho | ⟨p, hp, rfl⟩) | ho
+    · cases hh : c.hooks <;> simp [hh] at ho; subst ho; simp at hm
+    · exact (hs p (performed_sublist _ p hp)).1 hm
+    · cases hh : c.hooks <;> simp [hh] at ho; subst ho; simp at hm
+  · intro t ht o ho hm
+    rw [entryPoint_trace, hdb, hacts] at ho
+    simp only [Bool.false_eq_true, ↓reduceIte, List.mem_append, List.map_map, List.mem_map, Function.comp] at ho
+    rcases ho with (ho | ⟨p, hp, rfl⟩) | ho
+    · cases hh : c.hooks <;> simp [hh] at ho; subst ho; exact (hpost t ht).2 hm.symm
+    · exact (hs p (performed_sublist _ p hp)).2 t ht hm
+    · cases hh : c.hooks <;> simp [hh] at ho; subst ho; exact (hpost t ht).1 hm.symm
+
+/-- teardown runs exactly when the run got as far as a successful setup (all of it, the framework's steps included),
+    whatever main does -/
+theorem teardown_iff_setup_ok (c : Cfg) (s : Script) :
+    (Act.tdPre ∈ (entryPoint c s).trace.map (·.act)) ↔ (setupFault c s = none ∧ ¬(c.db = true ∧ s.dbFails = true)) := by
+  have hs : ∀ p ∈ setupSteps c s, p.act ≠ .tdPre := by
+    have h : (setupSteps c s).all (fun p => p.act != .tdPre) = true := by
+      unfold setupSteps scannerSetup udsSetup
+      cases c.kind <;> cases c.power <;> cases (c.art && c.dumpcap) <;> cases c.tp <;> cases c.props <;>
+        cases s.dumpcap <;> simp [Kind.isScanner, Kind.isUds, dumpcapStep]
+    intro p hp
+    simpa using List.all_eq_true.mp h p hp
+  have hin : Act.tdPre ∈ bodyActs c s ↔ setupFault c s = none := by
+    unfold bodyActs bodySteps
+    constructor
+    · intro h
+      obtain ⟨p, hp, he⟩ := List.mem_map.mp h
+      rcases List.mem_append.mp hp with hp | hp
+      · exact absurd he (hs p (performed_sublist _ p hp))
+      · split at hp
+        · rename_i hn; simpa using hn
+        · simp at hp
+    · intro h
+      have : Act.tdPre ∈ (performed (teardownSteps {} c s)).map (·.act) := by
+        unfold teardownSteps
+        simp [performed]
+      simp only [h, Option.isNone_none, ↓reduceIte, List.map_append, List.map_cons, List.mem_append, List.mem_cons]
+      exact Or.inr (Or.inr this)
+  rw [entryPoint_trace]
+  cases hh : c.hooks <;> cases hd : c.db <;> cases hf : s.dbFails <;>
+    simp [List.map_map, Function.comp_def, hin]
+
+/-- which exception wins: once `setup()` is through, an exception raised by any step of `teardown()` - the command's
+    code, properties, tester-present stop, `ecu.transport.close()`, `transport.close()`, `dumpcap.stop()` - replaces
+    whatever `main()` did: the whole outcome (exit code, META.json, run_meta row, hook environment, trace, resources)
+    is the same for every behaviour of main, KeyboardInterrupt included -/
+theorem teardown_exception_wins (c : Cfg) (s : Script) (m m' : Ev)
+    (h1 : setupFault c s = none) (h2 : (teardownFault c s).isSome = true) :
+    entryPoint c { s with main := m } = entryPoint c { s with main := m' } := by
+  have key : ∀ (x : Ev) (st : St), runBody {} c { s with main := x } st =
+      ((runSteps (teardownSteps {} c s) ((runSteps (setupSteps c s) st).1.obs .main)).1, teardownFault c s) := by
+    intro x st
+    obtain ⟨e, he⟩ := Option.isSome_iff_exists.mp h2
+    have a1 : setupSteps c { s with main := x } = setupSteps c s := rfl
+    have a2 : teardownSteps {} c { s with main := x } = teardownSteps {} c s := rfl
+    unfold runBody
+    simp only [a1, a2, runSteps_exc, firstFault_setupSteps, firstFault_teardownSteps, h1, he]
+  have hfp : ∀ st, fromPreHook {} c { s with main := m } st = fromPreHook {} c { s with main := m' } st := by
+    intro st
+    have e1 : ∀ x : Ev, hookPre {} c { s with main := x } st = hookPre {} c s st := fun _ => rfl
+    have e2 : ∀ (x : Ev) n st', postPhase {} c { s with main := x } n st' = postPhase {} c s n st' := fun _ _ _ => rfl
+    simp only [fromPreHook, tryBody, key, e1, e2]
+  unfold entryPoint entryPointQ entryPointW
+  simp only [hfp]
+
+/-- ... and an exception of main survives exactly when every step of teardown returns -/
+theorem main_exception_survives (c : Cfg) (s : Script)
+    (hdb : (c.db && s.dbFails) = false) (h1 : setupFault c s = none) (h2 : teardownFault c s = none) :
+    (entryPoint c s).exit = .ret (exitOf c.kind s.main) := by
+  rw [(entryPoint_fields c s).1]; simp [code, ended, hdb, raised, h1, h2]
+
+/-- a refused connection to the target (`ConnectionRefusedError` out of `load_transport(target).connect`) is an expected
+    error of a scanner: exit code 74 -/
+theorem connect_refused_is_io_error (c : Cfg) (s : Script)
+    (hk : c.kind.isScanner = true) (hdb : (c.db && s.dbFails) = false) (h : beforeConnect c s = none)
+    (he : s.connect = some (.err .conn)) : (entryPoint c s).exit = .ret 74 := by
+  have hf : setupFault c s = some (.err .conn) := by simp [setupFault, scannerSetupFault, hk, h, he]
+  rw [(setup_fault_skips_teardown c s _ hdb hf).1]
+  cases hc : c.kind <;> simp [hc, Kind.isScanner] at hk <;> simp [exitOf, catched]
+
+/-- the transport of a scanner is left open exactly when `Scanner.setup` got it connected and then either a later step
+    of `setup()` raised (no teardown) or `teardown()` raised before its first `transport.close()` returned -/
 theorem transport_closed_iff (c : Cfg) (s : Script) :
     (entryPoint c s).transportClosed =
-      !(!(c.db && s.dbFails) && c.kind.isScanner && (s.setup.isSome || s.tdPre.isSome)) :=
-  entryPoint_transport c s
+      !(!(c.db && s.dbFails) && transportOpened c s && !transportClosedAgain c s) := by
+  rw [entryPoint_eq]; exact (started_resources {} c s).1
 
-/-- teardown runs exactly when the run got as far as a successful setup, whatever main does -/
-theorem teardown_iff_setup_ok (c : Cfg) (s : Script) :
-    (Act.tdPre ∈ (entryPoint c s).trace.map (·.act)) ↔ (s.setup = none ∧ ¬(c.db = true ∧ s.dbFails = true)) := by
-  rw [entryPoint_trace]
-  cases hk : c.kind <;> cases hh : c.hooks <;> cases hd : c.db <;> cases hf : s.dbFails <;>
-    cases h1 : s.setup <;> cases h2 : s.tdPre <;>
-    simp [bodyActs, Kind.isScanner, Kind.closes, List.replicate, h1, h2]
+/-- the same for scripts in which only the command's own code fails (the statement before the framework's steps were
+    modelled) -/
+theorem transport_closed_iff_own_code (c : Cfg) (s : Script)
+    (h : s.power = none ∧ s.connect = none ∧ s.ecuConnect = none ∧ s.tpStart = none ∧ s.propsPre = none ∧
+         s.propsPost = none ∧ s.tpStop = none ∧ s.ecuClose = none ∧ s.close = none)
+    (hd : s.dumpcap = .started ∨ s.dumpcap = .notStarted) :
+    (entryPoint c s).transportClosed =
+      !(!(c.db && s.dbFails) && c.kind.isScanner && (s.setup.isSome || s.tdPre.isSome)) := by
+  rw [transport_closed_iff]
+  obtain ⟨h1, h2, h3, h4, h5, h6, h7, h8, h9⟩ := h
+  have hdf : dumpcapFault c s = none := by
+    unfold dumpcapFault; rcases hd with hd | hd <;> simp [hd]
+  cases hk : c.kind <;> cases hs : s.setup <;> cases ht : s.tdPre <;>
+    simp [hs, ht, transportOpened, transportClosedAgain, setupFault, scannerSetupFault, beforeConnect, udsSetupFault,
+      uptoFirstClose, udsTeardownFault, Kind.isScanner, Kind.isUds, hk, hdf, h1, h2, h3, h4, h5, h6, h7, h8, h9]
 
-/-! ## each repair was necessary: the pinned behaviours break the specification -/
+/-- the cyclic TesterPresent task is left running exactly when `UDSScanner.setup` started it and then either a later
+    step of `setup()` raised or `teardown()` raised before `stop_cyclic_tester_present` was reached -/
+theorem tp_stopped_iff (c : Cfg) (s : Script) :
+    (entryPoint c s).tpStopped = !(!(c.db && s.dbFails) && tpStarted c s && !tpStopReached c s) := by
+  rw [entryPoint_eq]; exact (started_resources {} c s).2.1
+
+/-- a dumpcap process is left behind exactly when `Scanner.setup` started one and then either `setup()` raised (also:
+    the process did not come up in time) or `teardown()` raised before `dumpcap.stop()` returned -/
+theorem dumpcap_stopped_iff (c : Cfg) (s : Script) :
+    (entryPoint c s).dcStopped = !(!(c.db && s.dbFails) && dcStarted c s && !dcStopDone c s) := by
+  rw [entryPoint_eq]; exact (started_resources {} c s).2.2
+
+/-! ## the prologue: lock file and artifacts directory, in every world -/
+
+/-- exit code mapping including the paths on which the run does not start: a lock file that cannot be opened / locked
+    gives 72 (`exitcodes.OSFILE`), Ctrl-C while waiting for a busy lock lets the `CancelledError` out of `entry_point()`
+    (-> KeyboardInterrupt in `asyncio.run`), an artifacts directory that cannot be created lets the `OSError` out,
+    everything else is the documented mapping -/
+theorem exit_mapping_world (w : World) (c : Cfg) (s : Script) :
+    (entryPointW {} w c s).exit =
+      match startOf w c with
+      | .noLock => .ret 72
+      | .lockWaitInterrupted => .escLockWait
+      | .noArtDir => .escArt
+      | .started => .ret (exitOf c.kind (ended c s)) := by
+  rw [entryPointW_eq]
+  cases startOf w c <;> rfl
+
+/-- the lock-failure path: `entry_point()` returns 72 and *nothing else happens* - no artifacts directory, no META.json,
+    no log file, no run_meta row, no hook, no lifecycle point, no lock held, earlier runs and `LATEST` untouched.
+    (Holds for the pinned tree as well: `∀ q`.) -/
+theorem lock_failure_leaves_nothing (q : Quirks) (w : World) (c : Cfg) (s : Script)
+    (hl : c.lock = true) (hb : w.lock = .broken) :
+    entryPointW q w c s =
+      { exit := .ret 72, metaFile := none, dbRow := .absent, dbClosed := true, logClosed := true, lockReleased := true,
+        preRan := false, postEnv := none, reports := [], transportClosed := true, trace := [], tpStopped := true,
+        dcStopped := true, waited := false, artDir := none, runs := w.runs, latest := w.latest } := by
+  unfold entryPointW lockPhase
+  simp [hl, hb, St.final, St.init, OSFILE]
+
+/-- Ctrl-C while the run waits for a lock that somebody else holds: the cancellation leaves `entry_point()` and, again,
+    nothing else happens - no artifacts directory, META.json, log, run_meta row, hook or lifecycle point; earlier runs
+    and `LATEST` untouched.  (The lock descriptor stays with the blocked helper thread: `lockReleased = false`.) -/
+theorem lock_wait_interrupted_leaves_nothing (q : Quirks) (w : World) (c : Cfg) (s : Script)
+    (hl : c.lock = true) (hb : w.lock = .interrupted) :
+    entryPointW q w c s =
+      { exit := .escLockWait, metaFile := none, dbRow := .absent, dbClosed := true, logClosed := true,
+        lockReleased := false, preRan := false, postEnv := none, reports := [], transportClosed := true, trace := [],
+        tpStopped := true, dcStopped := true, waited := true, artDir := none, runs := w.runs, latest := w.latest } := by
+  unfold entryPointW lockPhase
+  simp [hl, hb, St.final, St.init, St.step]
+
+/-- an artifacts directory that cannot be created (base not writable, or a directory with the name the clock gives
+    already exists): the `OSError` of `mkdir` leaves `entry_point()`; no record of a run appears, earlier runs and
+    `LATEST` are untouched; the lock (if any) stays with the process -/
+theorem art_failure_leaves_nothing (w : World) (c : Cfg) (s : Script) (h : startOf w c = .noArtDir) :
+    entryPointW {} w c s =
+      { exit := .escArt, metaFile := none, dbRow := .absent, dbClosed := true, logClosed := true,
+        lockReleased := !c.lock, preRan := false, postEnv := none, reports := [], transportClosed := true, trace := [],
+        tpStopped := true, dcStopped := true, waited := c.lock && w.lock == .busy, artDir := none, runs := w.runs,
+        latest := w.latest } := by
+  rw [entryPointW_eq, h]
+  unfold lockedSt
+  cases c.lock <;> simp [St.final, St.init, St.step]
+
+/-- a run that starts is the run of the benign world: lock state, earlier runs and the clock only show in `waited` and
+    in the directory fields.  The artifacts directory is the new one, its META.json carries the exit code, every earlier
+    run directory is still there with the META.json it had. -/
+theorem started_run_world_independent (w : World) (c : Cfg) (s : Script) (h : startOf w c = .started) :
+    entryPointW {} w c s =
+      { entryPoint c s with
+        waited := c.lock && w.lock == .busy
+        artDir := if c.art then some w.now else none
+        runs := if c.art then w.runs ++ [{ name := w.now, metaTag := some (code c s) }] else w.runs
+        latest := if c.art then lastName (w.runs ++ [{ name := w.now }]) else w.latest } := by
+  have hfresh : c.art = true → (w.runs.any fun r => r.name == w.now) = false :=
+    startOf_started_fresh w c h
+  obtain ⟨a1, a2, a3, a4, a5, a6, a7, a8, a9, a10, a11, a12, a13⟩ := started_fields w c s
+  obtain ⟨b1, b2, b3, b4, b5, b6, b7, b8, b9, -⟩ := started_fields {} c s
+  obtain ⟨r1, r2, r3⟩ := started_resources w c s
+  obtain ⟨q1, q2, q3⟩ := started_resources {} c s
+  have t1 := started_trace w c s
+  have t2 := started_trace {} c s
+  obtain ⟨k1, k2⟩ := ticks_world w c s
+  rw [k1, k2] at a8
+  rw [k2] at a7 a9
+  rw [entryPointW_eq, h, entryPoint_eq]
+  apply Final.ext_fields
+  · exact a1.trans b1.symm
+  · exact a7.trans b7.symm
+  · exact a8.trans b8.symm
+  · exact a4.trans b4.symm
+  · exact a3.trans b3.symm
+  · exact a2.trans b2.symm
+  · exact a5.trans b5.symm
+  · exact a9.trans b9.symm
+  · exact a6.trans b6.symm
+  · exact r1.trans q1.symm
+  · exact t1.trans t2.symm
+  · exact r2.trans q2.symm
+  · exact r3.trans q3.symm
+  · exact a10
+  · exact a11
+  · rw [a12]
+    cases ha : c.art
+    · rfl
+    · simp only [↓reduceIte]; exact writeMeta_fresh _ _ _ (hfresh ha)
+  · exact a13
+
+/-- the artifacts directory chosen is fresh: whatever is already below the artifacts base, however the clock reads and
+    however the run ends, every earlier run directory survives with its META.json unchanged, the directory this run uses
+    has a name no earlier directory has, and the META.json with this run's exit code is in it -/
+theorem artifacts_fresh_world (w : World) (c : Cfg) (s : Script) :
+    (∀ r ∈ w.runs, r ∈ (entryPointW {} w c s).runs) ∧
+    (∀ n, (entryPointW {} w c s).artDir = some n →
+      (∀ r ∈ w.runs, r.name ≠ n) ∧
+      ∃ x, (entryPointW {} w c s).exit = .ret x ∧ ({ name := n, metaTag := some x } : RunDir) ∈ (entryPointW {} w c s).runs) := by
+  cases h : startOf w c
+  · -- no lock
+    have hl := startOf_noLock w c h
+    rw [lock_failure_leaves_nothing {} w c s hl.1 hl.2]
+    exact ⟨fun r hr => hr, fun n hn => by simp at hn⟩
+  · have hl := startOf_interrupted w c h
+    rw [lock_wait_interrupted_leaves_nothing {} w c s hl.1 hl.2]
+    exact ⟨fun r hr => hr, fun n hn => by simp at hn⟩
+  · rw [art_failure_leaves_nothing w c s h]
+    exact ⟨fun r hr => hr, fun n hn => by simp at hn⟩
+  · rw [started_run_world_independent w c s h]
+    have hfresh : c.art = true → (w.runs.any fun r => r.name == w.now) = false :=
+      startOf_started_fresh w c h
+    cases ha : c.art
+    · exact ⟨fun r hr => by simpa using hr, fun n hn => by simp at hn⟩
+    · refine ⟨fun r hr => by simp [hr], fun n hn => ?_⟩
+      simp only [↓reduceIte, Option.some.injEq] at hn
+      subst hn
+      refine ⟨?_, code c s, ?_, by simp⟩
+      · intro r hr he
+        have := List.any_eq_false.mp (hfresh ha) r hr
+        simp [he] at this
+      · simp [(entryPoint_fields c s).1]
+
+/-- `LATEST` afterwards points at the name-wise last run directory: at this run exactly when no earlier directory has a
+    later name (a clock that went backwards leaves `LATEST` on the other run) -/
+theorem latest_link_world (w : World) (c : Cfg) (s : Script) (h : startOf w c = .started) (ha : c.art = true) :
+    ∃ m, (entryPointW {} w c s).latest = some m ∧ w.now ≤ m ∧ (∀ r ∈ w.runs, r.name ≤ m) ∧
+      (m = w.now ∨ ∃ r ∈ w.runs, r.name = m) ∧ (m = w.now ↔ ∀ r ∈ w.runs, r.name ≤ w.now) := by
+  rw [started_run_world_independent w c s h]
+  simp only [ha, ↓reduceIte]
+  cases hl : lastName (w.runs ++ [{ name := w.now }]) with
+  | none => have := (lastName_none _).mp hl; simp at this
+  | some m =>
+    obtain ⟨⟨r, hr, hm⟩, hle⟩ := lastName_spec _ m hl
+    have h1 : w.now ≤ m := hle { name := w.now } (by simp)
+    have h2 : ∀ r ∈ w.runs, r.name ≤ m := fun r hr => hle r (by simp [hr])
+    refine ⟨m, rfl, h1, h2, ?_, ?_⟩
+    · rcases List.mem_append.mp hr with hr | hr
+      · exact Or.inr ⟨r, hr, hm⟩
+      · simp at hr; subst hr; exact Or.inl hm.symm
+    · constructor
+      · intro he r hr; rw [← he]; exact h2 r hr
+      · intro hall
+        rcases List.mem_append.mp hr with hr | hr
+        · have := hall r hr; omega
+        · simp at hr; subst hr; exact hm.symm
+
+/-- a lock held by somebody else only delays the run: the outcome is the one with a free lock, plus the note that it
+    waited; nothing is observable before the lock is ours (`lock_held_throughout_world`) -/
+theorem busy_lock_only_delays_world (w : World) (c : Cfg) (s : Script) :
+    entryPointW {} { w with lock := .busy } c s =
+      { entryPointW {} { w with lock := .free } c s with waited := c.lock } := by
+  obtain ⟨hs, hn1, hn2⟩ := startOf_busy_free w c
+  cases h : startOf { w with lock := .free } c
+  · exact absurd h hn1
+  · exact absurd h hn2
+  · rw [art_failure_leaves_nothing _ c s h, art_failure_leaves_nothing _ c s (hs.trans h)]
+    cases c.lock <;> rfl
+  · rw [started_run_world_independent _ c s h, started_run_world_independent _ c s (hs.trans h)]
+    cases c.lock <;> rfl
+
+/-- in every world the lock is ours at every observable action of the run -/
+theorem lock_held_throughout_world (w : World) (c : Cfg) (s : Script) :
+    ∀ o ∈ (entryPointW {} w c s).trace, o.lockHeld = c.lock := by
+  cases h : startOf w c
+  · rw [entryPointW_eq, h]; simp [St.final, St.init]
+  · rw [entryPointW_eq, h]; simp [St.final, St.init, interruptedSt, St.step]
+  · rw [art_failure_leaves_nothing w c s h]; simp
+  · rw [started_run_world_independent w c s h]; exact lock_held_throughout c s
+
+/-- the executable specification (`Spec.violationsW`, the one the harness evaluates on the real runs) finds nothing
+    wrong with any run of the model in any world -/
+theorem spec_holds_world (w : World) (c : Cfg) (s : Script) : violationsW w c s (entryPointW {} w c s) = [] := by
+  have ht := lock_held_throughout_world w c s
+  have ht' : ((entryPointW {} w c s).trace.all fun o => o.lockHeld == c.lock) = true := by
+    rw [List.all_eq_true]; intro o ho; simpa using ht o ho
+  unfold violationsW
+  cases h : startOf w c
+  · have hl := startOf_noLock w c h
+    rw [lock_failure_leaves_nothing {} w c s hl.1 hl.2]
+    simp [chk]
+  · have hl := startOf_interrupted w c h
+    rw [lock_wait_interrupted_leaves_nothing {} w c s hl.1 hl.2]
+    simp [chk]
+  · simp only [ht']
+    rw [art_failure_leaves_nothing w c s h]
+    simp [chk]
+  · simp only
+    unfold runClauses
+    simp only [ht']
+    have hfresh : c.art = true → (w.runs.any fun r => r.name == w.now) = false :=
+      startOf_started_fresh w c h
+    have hpres : preserved w (entryPointW {} w c s) = true := by
+      unfold preserved
+      rw [List.all_eq_true]
+      intro r hr
+      have := (artifacts_fresh_world w c s).1 r hr
+      simpa using this
+    rw [hpres]
+    rw [started_run_world_independent w c s h]
+    obtain ⟨hx, hl, hg, hc, hp, hr, hm, hd, he⟩ := entryPoint_fields c s
+    have h1 := start_lt_stop {} c s
+    simp only [hx, hl, hg, hc, hp, hr, hm, hd, he]
+    cases ha : c.art
+    · cases c.db <;> cases s.dbFails <;> cases c.hooks <;> simp [chk] <;> omega
+    · have hf := hfresh ha
+      cases c.db <;> cases s.dbFails <;> cases c.hooks <;> simp [chk, hf] <;> omega
+
+/-- ... in particular in a benign world -/
+theorem spec_holds (c : Cfg) (s : Script) : violations c s (entryPoint c s) = [] :=
+  spec_holds_world {} c s
+
+/-! ## each repair / each guard is necessary: the pinned behaviours break the specification -/
 
 /-- `run_hook` reading the unbound `p`: a failing pre-hook aborts the run before anything is recorded -/
 theorem pinned_hook_defect :
@@ -229,6 +630,14 @@ theorem pinned_db_open_defect :
     = ["exit-code", "meta-missing", "db-left-open", "log-left-open", "lock-held", "post-hook-skipped"] := by
   decide
 
+/-- `mkdir` without `exist_ok` is what keeps runs apart: with `exist_ok=True` a run whose clock reading collides with an
+    earlier run's directory overwrites that run's META.json (here: exit code 0 recorded over a run that ended with 3) -/
+theorem exist_ok_would_overwrite :
+    violationsW { now := 5, runs := [{ name := 5, metaTag := some 3 }] } { art := true } {}
+      (entryPointW { mkdirExistOk := true } { now := 5, runs := [{ name := 5, metaTag := some 3 }] } { art := true } {})
+    = ["previous-run-overwritten"] := by
+  decide
+
 /-! ## the hypotheses are satisfiable / the statements are not vacuous -/
 
 example : (entryPoint { kind := .uds, lock := true, art := true, db := true, hooks := true }
@@ -242,5 +651,47 @@ example : (entryPoint { kind := .uds, art := true, db := true } { dbFails := tru
     = .ret 70 := by decide
 
 example : (entryPoint { kind := .plain } { main := some (.err .conn) }).exit = .ret 70 := by decide
+
+-- `setup_fault_skips_teardown` / `connect_refused_is_io_error`: refused connection with dumpcap already running
+example : setupFault (.allOn .uds) { connect := some (.err .conn) } = some (.err .conn)
+    ∧ beforeConnect (.allOn .uds) { connect := some (.err .conn) } = none
+    ∧ (entryPoint (.allOn .uds) { connect := some (.err .conn) }).exit = .ret 74
+    ∧ (entryPoint (.allOn .uds) { connect := some (.err .conn) }).dcStopped = false
+    ∧ (entryPoint (.allOn .uds) { connect := some (.err .conn) }).transportClosed = true := by decide
+
+-- `teardown_exception_wins`: Ctrl-C in main, then `transport.close()` raises an OSError: 70, not 130
+example : setupFault (.allOn .scanner) { main := some .kbd, close := some (.err .other) } = none
+    ∧ (teardownFault (.allOn .scanner) { main := some .kbd, close := some (.err .other) }).isSome = true
+    ∧ (entryPoint (.allOn .scanner) { main := some .kbd, close := some (.err .other) }).exit = .ret 70
+    ∧ (entryPoint (.allOn .scanner) { main := some .kbd, close := some (.err .other) }).dcStopped = false := by decide
+
+-- `main_exception_survives`
+example : setupFault (.allOn .uds) { main := some (.sysExit 5) } = none
+    ∧ teardownFault (.allOn .uds) { main := some (.sysExit 5) } = none
+    ∧ (entryPoint (.allOn .uds) { main := some (.sysExit 5) }).exit = .ret 5 := by decide
+
+-- tester present left running: properties fail in setup after the task was started
+example : (entryPoint (.allOn .uds) { propsPre := some (.err .uds) }).tpStopped = false
+    ∧ (entryPoint (.allOn .uds) { propsPre := some (.err .uds) }).exit = .ret 74 := by decide
+
+-- the three starts
+example : startOf { lock := .interrupted } { lock := true, art := true } = .lockWaitInterrupted
+    ∧ (entryPointW {} { lock := .interrupted, runs := [{ name := 3, metaTag := some 1 }] } { lock := true, art := true }
+        { main := some (.sysExit 4) }).runs = [{ name := 3, metaTag := some 1 }] := by decide
+
+example : startOf { lock := .broken } { lock := true } = .noLock
+    ∧ startOf { baseOk := false } { art := true } = .noArtDir
+    ∧ startOf { now := 7, runs := [{ name := 7, metaTag := some 0 }] } { art := true } = .noArtDir
+    ∧ startOf { lock := .busy, now := 7, runs := [{ name := 3, metaTag := some 1 }, { name := 9, metaTag := some 0 }] }
+        { lock := true, art := true } = .started := by decide
+
+-- a started run among earlier runs: fresh directory, META.json in it, LATEST stays on the later-named run
+example : (entryPointW {} { lock := .busy, now := 7, runs := [{ name := 3, metaTag := some 1 }, { name := 9, metaTag := some 0 }] }
+            { lock := true, art := true } { main := some (.sysExit 4) }).runs
+          = [{ name := 3, metaTag := some 1 }, { name := 9, metaTag := some 0 }, { name := 7, metaTag := some 4 }]
+    ∧ (entryPointW {} { lock := .busy, now := 7, runs := [{ name := 3, metaTag := some 1 }, { name := 9, metaTag := some 0 }] }
+            { lock := true, art := true } { main := some (.sysExit 4) }).latest = some 9
+    ∧ (entryPointW {} { lock := .busy, now := 7, runs := [{ name := 3, metaTag := some 1 }, { name := 9, metaTag := some 0 }] }
+            { lock := true, art := true } { main := some (.sysExit 4) }).waited = true := by decide
 
 end Gallia.C15
